@@ -8,6 +8,7 @@ from collections import Counter
 
 CELL_SYM = ["|", "!", "||", "!!", "<td>", "<th>", "</td>", "bar", "[[", "x", "x"]
 ROW_SYM = ["|-", "<tr>", "</tr>", "nl", "c", "c", "x", "x"]
+TABLE_SYM = ["{|", "|}", "x", "x"]
 
 
 def worker(items, extra, progress):
@@ -80,6 +81,32 @@ def worker(items, extra, progress):
             return "c%d" % t._k
         return t.text
 
+    class BareTables(parse_table.TableParser):        # pairing only: what happens inside a table is compared separately
+        def handle_rows(self, sublist):
+            pass
+
+        def find_modifier(self, table):
+            pass
+
+        def find_caption(self, table):
+            pass
+
+    def mk_table_tok(sym, k, rng):
+        if sym == "{|":
+            return T(type=T.t_begin_table, text="{|") if rng.random() < 0.6 else T(type=T.t_html_tag, rawtagname="table", text="<table>")
+        if sym == "|}":
+            return T(type=T.t_end_table, text="|}") if rng.random() < 0.6 else T(type=T.t_html_tag_end, rawtagname="table", text="</table>")
+        return T(type=T.t_text, text="x%d" % k)
+
+    def show_table_tok(t):
+        if t.type == T.t_complex_table:
+            return "T(" + " ".join(show_table_tok(c) for c in t.children) + ")"
+        if t.type in (T.t_end_table, T.t_html_tag_end):
+            return "|}"
+        if t.type in (T.t_begin_table, T.t_html_tag):
+            return "{|"
+        return t.text
+
     class KeepCells:                 # rows are compared before their cells are made
         def __init__(self, tokens, xopts):
             pass
@@ -88,18 +115,24 @@ def worker(items, extra, progress):
     for i, it in enumerate(items):
         progress(i)
         kind, spec = it
+        alpha = {"cells": CELL_SYM, "rows": ROW_SYM, "tables": TABLE_SYM}[kind]
         if isinstance(spec, int):
             rng = random.Random(spec)
-            alpha = CELL_SYM if kind == "cells" else ROW_SYM
             syms = [rng.choice(alpha) for _ in range(rng.randint(0, 12))]
         else:
-            syms = [(CELL_SYM if kind == "cells" else ROW_SYM)[k] for k in spec]
+            rng = random.Random(hash(tuple(spec)) & 0xffff)
+            syms = [alpha[k] for k in spec]
         try:
             if kind == "cells":
                 toks = [mk_cell_tok(s, k) for k, s in enumerate(syms)]
                 req = "cells " + " ".join(("x%d" % k if s == "x" else s) for k, s in enumerate(syms))
                 parse_table.TableCellParser(toks, None)
                 real = " ".join(show_cell_tok(t) for t in toks)
+            elif kind == "tables":
+                toks = [mk_table_tok(s, k, rng) for k, s in enumerate(syms)]
+                req = "tables " + " ".join(("x%d" % k if s == "x" else s) for k, s in enumerate(syms))
+                BareTables(toks, None)
+                real = " ".join(show_table_tok(t) for t in toks)
             else:
                 toks = [mk_row_tok(s, k) for k, s in enumerate(syms)]
                 req = "rows " + " ".join(("x%d" % k if s == "x" else "c%d" % k if s == "c" else s) for k, s in enumerate(syms))
@@ -111,7 +144,8 @@ def worker(items, extra, progress):
                     parse_table.TableCellParser = orig
                 real = " ".join(show_row_tok(t) for t in toks)
         except Exception as e:  # noqa: BLE001
-            viol.append({"why": f"{'TableCellParser' if kind == 'cells' else 'TableRowParser'} raised {type(e).__name__}: {e}", "text": " ".join(syms)})
+            viol.append({"why": f"{ {'cells': 'TableCellParser', 'rows': 'TableRowParser', 'tables': 'TableParser'}[kind] } raised {type(e).__name__}: {e}",
+                         "text": " ".join(syms)})
             continue
         hist[kind] += 1
         reqs.append(req)
@@ -131,7 +165,10 @@ def all_items(tier, seed):
         idx = [(CELL_SYM if kind == "cells" else ROW_SYM).index(a) for a in alpha]
         for n in range(0, k + 1):
             items += [(kind, t) for t in itertools.product(idx, repeat=n)]
+    for m in range(0, (9 if tier == "thorough" else 7)):
+        items += [("tables", t) for t in itertools.product(range(3), repeat=m)]
     n = 40000 if tier == "thorough" else 6000
     items += [("cells", seed * 10_000_000 + 9_100_000 + i) for i in range(n)]
     items += [("rows", seed * 10_000_000 + 9_200_000 + i) for i in range(n)]
+    items += [("tables", seed * 10_000_000 + 9_400_000 + i) for i in range(n // 2)]
     return items
